@@ -10,7 +10,9 @@ COMMON_ASSUMPTIONS = [
 ]
 
 MC = 'model_checking'
-EX = 'exploration'
+# input-space sweeps are the same technique (exhaustive enumeration of a bounded space of executions on the real code,
+# oracle on every one); they report states = executions, transitions = library calls driven, like the history explorers
+EX = 'model_checking'
 
 PROPS = {
  'C01': dict(
